@@ -6,14 +6,25 @@ namespace AsynqModel.Futures
 structure Rel (k : Kind) (w : Watch) (f : Fut) : Prop where
   kind : f.kind = k
   known : w.known = f.out
-  subs : w.subs = f.subs.map Prod.fst
+  subs : w.subs = f.subs
   runs : w.runs = f.runs
   bound : f.runs ≤ w.resets + (if f.out.isSome then 1 else 0)
   sink : k.sinking = true → f.subs = []
 
-theorem notifiedAll_self (subs : List (Nat × Bool)) (o : Outc) :
-    notifiedAll (subs.map Prod.fst) (subs.map fun s => { sub := s.1, seen := some o }) o = true := by
-  simp [notifiedAll, List.map_map, Function.comp_def]
+theorem matchCbs_self (o : Outc) (late removed : List Nat) (subs : List Sub) :
+    matchCbs o late (marks removed subs) (subs.map (notif o)) = true := by
+  induction subs generalizing removed with
+  | nil => simp [marks, matchCbs]
+  | cons s ss ih => simp [marks, matchCbs, notif, ih]
+
+/-- the notifications the model produces for a completion are accepted by the observer's clause -/
+theorem notifiedAll_self (subs : List Sub) (o : Outc) :
+    notifiedAll subs (subs.map (notif o)) o = true := by
+  simp [notifiedAll, matchCbs_self]
+
+@[simp] theorem afterNotify_nil : afterNotify [] = [] := rfl
+@[simp] theorem hasSub_nil (j : Nat) : hasSub [] j = false := rfl
+@[simp] theorem eraseSub_nil (j : Nat) : eraseSub [] j = [] := rfl
 
 theorem rel_init (k : Kind) : Rel k (watchInit k) (init k) := by
   cases k <;> constructor <;> simp [watchInit, init, Kind.sinking]
@@ -73,12 +84,21 @@ theorem rel_step_reset (k : Kind) (w : Watch) (f : Fut) (h : Rel k w f) :
   subst hk
   rel_step_tac
 
-theorem rel_step_subscribe (k : Kind) (w : Watch) (f : Fut) (i : Nat) (r : Bool) (h : Rel k w f) :
+theorem rel_step_subscribe (k : Kind) (w : Watch) (f : Fut) (i : Nat) (r : Beh) (h : Rel k w f) :
     ∃ w', watchStep k w (observe f (.subscribe i r)).2 = .ok w' ∧
       Rel k { w' with runs := (observe f (.subscribe i r)).2.runs } (observe f (.subscribe i r)).1 := by
   obtain ⟨hk, hkn, hs, hr, hb, hsink⟩ := h
   subst hk
   rel_step_tac
+
+theorem rel_step_unsubscribe (k : Kind) (w : Watch) (f : Fut) (i : Nat) (h : Rel k w f) :
+    ∃ w', watchStep k w (observe f (.unsubscribe i)).2 = .ok w' ∧
+      Rel k { w' with runs := (observe f (.unsubscribe i)).2.runs } (observe f (.unsubscribe i)).1 := by
+  obtain ⟨hk, hkn, hs, hr, hb, hsink⟩ := h
+  subst hk
+  cases hh : hasSub f.subs i <;> cases hk : f.kind <;> cases ho : f.out <;>
+    simp_all [watchStep, observe, step, unsubStep, Kind.sinking] <;>
+    (split <;> first | omega | (refine ⟨_, rfl, ?_⟩; constructor <;> simp_all [Kind.sinking] <;> omega))
 
 theorem rel_step (k : Kind) (w : Watch) (f : Fut) (op : Op) (h : Rel k w f) :
     ∃ w', watchStep k w (observe f op).2 = .ok w' ∧
@@ -92,6 +112,7 @@ theorem rel_step (k : Kind) (w : Watch) (f : Fut) (op : Op) (h : Rel k w f) :
   | setError e => exact rel_step_setError k w f e h
   | reset => exact rel_step_reset k w f h
   | subscribe i r => exact rel_step_subscribe k w f i r h
+  | unsubscribe i => exact rel_step_unsubscribe k w f i h
 
 theorem watchRun_ok (k : Kind) (ops : List Op) (w : Watch) (f : Fut) (h : Rel k w f) :
     ∃ w', watchRun k w (run f ops) = .ok w' := by
@@ -102,12 +123,19 @@ theorem watchRun_ok (k : Kind) (ops : List Op) (w : Watch) (f : Fut) (h : Rel k 
     simp only [run, watchRun, h1]
     exact ih _ _ h2
 
+theorem unsubStep_resets (k : Kind) (w w' : Watch) (i : Nat) (r : Res) (h : unsubStep k w i r = .ok w') :
+    w'.resets = w.resets := by
+  unfold unsubStep at h
+  repeat' split at h
+  all_goals (first | contradiction | (injection h with h; subst h; rfl))
+
 theorem watchStep_resets (k : Kind) (w w' : Watch) (ob : Obs) (h : watchStep k w ob = .ok w') :
     w'.resets = w.resets + (if ob.op = .reset then 1 else 0) := by
   unfold watchStep at h
   simp only at h
   repeat' split at h
-  all_goals (first | contradiction | (injection h with h; subst h; simp_all))
+  all_goals (first | contradiction | (injection h with h; subst h; simp_all) |
+    (have := unsubStep_resets _ _ _ _ _ h; simp_all))
 
 theorem runs_bound (k : Kind) (ops : List Op) (w : Watch) (f : Fut) (h : Rel k w f) :
     (finalState f ops).runs ≤ w.resets + ops.count .reset + 1 := by
